@@ -47,10 +47,16 @@ package keeper
 
 // Ordinary (non cross-chain) contracts and the common bookkeeping.
 //@ func Keeper.CreateHTLC
-//@   property C03
+//@   property C03, C04
 //@   returns id, err
 //@   requires height >= 0 && timeLock <= 34560
+//@   requires allSupWF && paramsValid && escrowInv && countersInv
+//@   requires sender != MOD && to != MOD && (forall d:Str :: amt(amount, d) >= 0)
 //@   modifies bal, supply, htlcs, queue, supplies
+//@   lemma @return sumsUpd(old(htlcs), id, get(htlcs, id), anydenom(1)) if err == nil
+//@   ensures @C04 keeps_escrow:   err == nil ==> bal(MOD, anydenom(1)) == ESC(htlcs, anydenom(1))
+//@   ensures @C04 keeps_counters: err == nil ==> CIN(anydenom(1)) == INC(htlcs, anydenom(1)) && COUT(anydenom(1)) == OUT(htlcs, anydenom(1))
+//@   ensures @C04 keeps_wf:       err == nil ==> allSupWF
 //@   ensures id_of:  id == types.GetID(sender, to, amount, hashLock)
 //@   ensures duplicate_rejected: old(has(htlcs, id)) ==> err != nil
 //@   ensures opened: err == nil ==> !old(has(htlcs, id)) && has(htlcs, id) && get(htlcs, id).State == OPEN
@@ -63,11 +69,16 @@ package keeper
 //@ end
 
 //@ func Keeper.ClaimHTLC
-//@   property C03
+//@   property C03, C04
 //@   returns hashLock, transfer, dir, err
 //@   let h = get(htlcs, id)
 //@   requires height >= 0
+//@   requires allSupWF && escrowInv && countersInv && allRecWF
 //@   modifies bal, supply, htlcs, queue, supplies
+//@   lemma @return sumsUpd(old(htlcs), id, get(htlcs, id), anydenom(1)) if err == nil
+//@   ensures @C04 keeps_escrow:   err == nil ==> bal(MOD, anydenom(1)) == ESC(htlcs, anydenom(1))
+//@   ensures @C04 keeps_counters: err == nil ==> CIN(anydenom(1)) == INC(htlcs, anydenom(1)) && COUT(anydenom(1)) == OUT(htlcs, anydenom(1))
+//@   ensures @C04 keeps_wf:       err == nil ==> allSupWF
 //@   ensures only_open: err == nil ==> old(has(htlcs, id)) && h.State == OPEN
 //@   ensures preimage:  err == nil ==> types.GetHashLock(secret, h.Timestamp) == unhex(h.HashLock)
 //@   ensures wrong_secret_rejected: types.GetHashLock(secret, h.Timestamp) != unhex(h.HashLock) ==> err != nil
@@ -79,10 +90,17 @@ package keeper
 
 // RefundHTLC does not check the state itself: its caller (BeginBlocker) hands it a record taken from the expiry queue.
 //@ func Keeper.RefundHTLC
-//@   property C03
+//@   property C03, C04
 //@   returns err
 //@   requires height >= 0
+//@   requires allSupWF && escrowInv && countersInv && allRecWF
+//@   requires has(htlcs, id) && h == get(htlcs, id) && h.State == OPEN
 //@   modifies bal, supply, htlcs, supplies
+//@   lemma @entry sumsGe(htlcs, id, anydenom(2))
+//@   lemma @return sumsUpd(old(htlcs), id, get(htlcs, id), anydenom(1)) if err == nil
+//@   ensures @C04 keeps_escrow:   err == nil ==> bal(MOD, anydenom(1)) == ESC(htlcs, anydenom(1))
+//@   ensures @C04 keeps_counters: err == nil ==> CIN(anydenom(1)) == INC(htlcs, anydenom(1)) && COUT(anydenom(1)) == OUT(htlcs, anydenom(1))
+//@   ensures @C04 keeps_wf:       err == nil ==> allSupWF
 //@   ensures refunded: err == nil ==> htlcs == set(old(htlcs), id, closed(h, REFUNDED, height))
 //@   ensures paid_back: err == nil && !h.Transfer ==> bal == payOut(old(bal), addr(h.Sender), h.Amount) && supply == old(supply) && supplies == old(supplies)
 //@ end
@@ -120,7 +138,7 @@ package keeper
 //@   requires supWF(coin.Denom) && coin.Amount >= 0
 //@   let r = SUP(coin.Denom)
 //@   modifies supplies
-//@   ensures counted: err == nil ==> has(supplies, coin.Denom) && supplies == set(old(supplies), coin.Denom, with(r, "IncomingSupply", addTo(r.IncomingSupply, coin.Amount)))
+//@   ensures counted: err == nil ==> old(has(supplies, coin.Denom)) && supplies == set(old(supplies), coin.Denom, with(r, "IncomingSupply", addTo(r.IncomingSupply, coin.Amount)))
 //@   ensures limit:   err == nil ==> r.CurrentSupply.Amount + r.IncomingSupply.Amount + coin.Amount <= ASSET(coin.Denom).SupplyLimit.Limit
 //@   ensures time_limit: err == nil && ASSET(coin.Denom).SupplyLimit.TimeLimited ==>
 //@                    r.TimeLimitedCurrentSupply.Amount + r.IncomingSupply.Amount + coin.Amount <= ASSET(coin.Denom).SupplyLimit.TimeBasedLimit
@@ -133,7 +151,7 @@ package keeper
 //@   requires supWF(coin.Denom) && coin.Amount >= 0
 //@   let r = SUP(coin.Denom)
 //@   modifies supplies
-//@   ensures counted: err == nil ==> has(supplies, coin.Denom) && r.IncomingSupply.Amount >= coin.Amount
+//@   ensures counted: err == nil ==> old(has(supplies, coin.Denom)) && r.IncomingSupply.Amount >= coin.Amount
 //@                    && supplies == set(old(supplies), coin.Denom, with(r, "IncomingSupply", addTo(r.IncomingSupply, 0 - coin.Amount)))
 //@   ensures keeps_wf: err == nil ==> supWF(coin.Denom)
 //@ end
@@ -144,7 +162,7 @@ package keeper
 //@   requires supWF(coin.Denom) && coin.Amount >= 0
 //@   let r = SUP(coin.Denom)
 //@   modifies supplies
-//@   ensures counted: err == nil ==> has(supplies, coin.Denom) && supplies == set(old(supplies), coin.Denom, with(r, "OutgoingSupply", addTo(r.OutgoingSupply, coin.Amount)))
+//@   ensures counted: err == nil ==> old(has(supplies, coin.Denom)) && supplies == set(old(supplies), coin.Denom, with(r, "OutgoingSupply", addTo(r.OutgoingSupply, coin.Amount)))
 //@   ensures available: err == nil ==> r.OutgoingSupply.Amount + coin.Amount <= r.CurrentSupply.Amount
 //@   ensures keeps_wf: err == nil ==> supWF(coin.Denom)
 //@ end
@@ -155,7 +173,7 @@ package keeper
 //@   requires supWF(coin.Denom) && coin.Amount >= 0
 //@   let r = SUP(coin.Denom)
 //@   modifies supplies
-//@   ensures counted: err == nil ==> has(supplies, coin.Denom) && r.OutgoingSupply.Amount >= coin.Amount
+//@   ensures counted: err == nil ==> old(has(supplies, coin.Denom)) && r.OutgoingSupply.Amount >= coin.Amount
 //@                    && supplies == set(old(supplies), coin.Denom, with(r, "OutgoingSupply", addTo(r.OutgoingSupply, 0 - coin.Amount)))
 //@   ensures keeps_wf: err == nil ==> supWF(coin.Denom)
 //@ end
@@ -167,7 +185,7 @@ package keeper
 //@   let r = SUP(coin.Denom)
 //@   let tl = ASSET(coin.Denom).SupplyLimit.TimeLimited
 //@   modifies supplies
-//@   ensures counted: err == nil ==> has(supplies, coin.Denom) && supplies == set(old(supplies), coin.Denom,
+//@   ensures counted: err == nil ==> old(has(supplies, coin.Denom)) && supplies == set(old(supplies), coin.Denom,
 //@                    with(with(r, "CurrentSupply", addTo(r.CurrentSupply, coin.Amount)), "TimeLimitedCurrentSupply", addTo(r.TimeLimitedCurrentSupply, ite(tl, coin.Amount, 0))))
 //@   ensures limit:   err == nil ==> r.CurrentSupply.Amount + coin.Amount <= ASSET(coin.Denom).SupplyLimit.Limit
 //@   ensures time_limit: err == nil && tl ==> r.TimeLimitedCurrentSupply.Amount + coin.Amount <= ASSET(coin.Denom).SupplyLimit.TimeBasedLimit
@@ -180,7 +198,7 @@ package keeper
 //@   requires supWF(coin.Denom) && coin.Amount >= 0
 //@   let r = SUP(coin.Denom)
 //@   modifies supplies
-//@   ensures counted: err == nil ==> has(supplies, coin.Denom) && r.CurrentSupply.Amount >= coin.Amount
+//@   ensures counted: err == nil ==> old(has(supplies, coin.Denom)) && r.CurrentSupply.Amount >= coin.Amount
 //@                    && supplies == set(old(supplies), coin.Denom, with(r, "CurrentSupply", addTo(r.CurrentSupply, 0 - coin.Amount)))
 //@   ensures keeps_wf: err == nil ==> supWF(coin.Denom)
 //@ end
@@ -200,6 +218,7 @@ package keeper
 //@   let c0 = C0(amount)
 //@   let r = SUP(c0.Denom)
 //@   modifies bal, supplies
+//@   ensures known_asset: err == nil ==> old(has(supplies, c0.Denom))
 //@   ensures one_coin:  err == nil ==> len(amount) == 1 && amount == addcoin(nocoins(), c0.Denom, c0.Amount) && (dir == INCOMING || dir == OUTGOING)
 //@   ensures incoming:  err == nil && dir == INCOMING ==> bal == old(bal)
 //@                      && supplies == set(old(supplies), c0.Denom, with(r, "IncomingSupply", addTo(r.IncomingSupply, c0.Amount)))
@@ -218,7 +237,7 @@ package keeper
 //@   let r = SUP(c0.Denom)
 //@   let tl = ASSET(c0.Denom).SupplyLimit.TimeLimited
 //@   modifies bal, supply, supplies
-//@   ensures direction: err == nil ==> htlc.Direction == INCOMING || htlc.Direction == OUTGOING
+//@   ensures direction: err == nil ==> (htlc.Direction == INCOMING || htlc.Direction == OUTGOING) && old(has(supplies, c0.Denom))
 //@   ensures incoming:  err == nil && htlc.Direction == INCOMING ==>
 //@                      supply == addcoins(old(supply), htlc.Amount) && bal == creditcoins(debitcoins(creditcoins(old(bal), MOD, htlc.Amount), MOD, htlc.Amount), addr(htlc.To), htlc.Amount)
 //@                      && supplies == set(old(supplies), c0.Denom, with(with(with(r, "IncomingSupply", addTo(r.IncomingSupply, 0 - c0.Amount)),
@@ -238,10 +257,40 @@ package keeper
 //@   let c0 = C0(amount)
 //@   let r = SUP(c0.Denom)
 //@   modifies bal, supplies
-//@   ensures direction: err == nil ==> direction == INCOMING || direction == OUTGOING
+//@   ensures direction: err == nil ==> (direction == INCOMING || direction == OUTGOING) && old(has(supplies, c0.Denom))
 //@   ensures incoming:  err == nil && direction == INCOMING ==> bal == old(bal)
 //@                      && supplies == set(old(supplies), c0.Denom, with(r, "IncomingSupply", addTo(r.IncomingSupply, 0 - c0.Amount)))
 //@   ensures outgoing:  err == nil && direction == OUTGOING ==> bal == payOut(old(bal), sender, amount)
 //@                      && supplies == set(old(supplies), c0.Denom, with(r, "OutgoingSupply", addTo(r.OutgoingSupply, 0 - c0.Amount)))
 //@   ensures keeps_wf:  err == nil ==> allSupWF
 //@ end
+
+// ---------------------------------------------------------------------------------------------
+// C04 module invariant: escrow and counters equal the sums over open contracts (aggregates with the
+// single-key update rule and "sum >= summand" as axioms about finite sums)
+
+//@ define owesEscrow(h) = h.State == OPEN && (!h.Transfer || h.Direction == OUTGOING)
+//@ define isInc(h) = h.State == OPEN && h.Transfer && h.Direction == INCOMING
+//@ define isOut(h) = h.State == OPEN && h.Transfer && h.Direction == OUTGOING
+//@ define ESC(H, d) = uf("escrowOwed", H, d)
+//@ define INC(H, d) = uf("incomingOpen", H, d)
+//@ define OUT(H, d) = uf("outgoingOpen", H, d)
+//@ define wEsc(H, i, d) = ite(has(H, i) && owesEscrow(get(H, i)), amt(get(H, i).Amount, d), 0)
+//@ define wInc(H, i, d) = ite(has(H, i) && isInc(get(H, i)), amt(get(H, i).Amount, d), 0)
+//@ define wOut(H, i, d) = ite(has(H, i) && isOut(get(H, i)), amt(get(H, i).Amount, d), 0)
+//@ axiom sumsUpd(H, i, v, d)
+//@   ensures ESC(set(H, i, v), d) == ESC(H, d) - wEsc(H, i, d) + ite(owesEscrow(v), amt(v.Amount, d), 0)
+//@   ensures INC(set(H, i, v), d) == INC(H, d) - wInc(H, i, d) + ite(isInc(v), amt(v.Amount, d), 0)
+//@   ensures OUT(set(H, i, v), d) == OUT(H, d) - wOut(H, i, d) + ite(isOut(v), amt(v.Amount, d), 0)
+//@ axiom sumsGe(H, i, d)
+//@   ensures ESC(H, d) >= wEsc(H, i, d) && INC(H, d) >= wInc(H, i, d) && OUT(H, d) >= wOut(H, i, d)
+//@ define CIN(d) = ite(has(supplies, d), SUP(d).IncomingSupply.Amount, 0)
+//@ define COUT(d) = ite(has(supplies, d), SUP(d).OutgoingSupply.Amount, 0)
+//@ define escrowInv = forall d:Str :: bal(MOD, d) == ESC(htlcs, d)
+//@ define countersInv = forall d:Str :: CIN(d) == INC(htlcs, d) && COUT(d) == OUT(htlcs, d)
+// stored records: recipient / sender are ordinary accounts (not the escrow account, not blocked), transfers carry one coin
+//@ define recWF(h) = bechok(h.To) && bechok(h.Sender) && addr(h.To) != MOD && addr(h.Sender) != MOD && !blocked[addr(h.Sender)]
+//@      && (h.Transfer ==> len(h.Amount) == 1 && (h.Direction == INCOMING || h.Direction == OUTGOING) && has(supplies, coinat(h.Amount, 0).Denom)
+//@                        && h.Amount == addcoin(nocoins(), coinat(h.Amount, 0).Denom, coinat(h.Amount, 0).Amount))
+//@      && (forall d:Str :: amt(h.Amount, d) >= 0)
+//@ define allRecWF = forall i:Bytes :: has(htlcs, i) ==> recWF(get(htlcs, i))
